@@ -72,6 +72,9 @@ PROPS = {
             # the runner must hand the verdict's amount to wait(): scripted blocks on the real MTGraph
             {"sub": "sched", "quick": ["--seed", "{seed}", "--what", "mt", "--mt-cases", 300],
              "thorough": ["--seed", "{seed}", "--what", "mt", "--mt-cases", 20000], "timeout": 20000},
+            # which stream a generated multi-input block names when it waits (a wait on the wrong stream never ends)
+            {"sub": "blocks", "quick": ["--seed", "{seed}", "--set", "arity", "--cases", 300, "--steps", 40, "--eof-probes", 1],
+             "thorough": ["--seed", "{seed}", "--set", "arity", "--cases", 10000, "--steps", 60, "--eof-probes", 1]},
         ],
         "rule": "sequential grid (amount x need x peer alive) of every decision function against the Lean model run on the "
                 "GENERATED read order; deterministic replays on real threads (verif::point hook) of the witness schedule "
@@ -169,7 +172,7 @@ PROPS = {
     },
     "C08": {
         "required_theorems": ["c08_sync_chunk_independent", "c08_sync_prefix", "c08_sync_window", "c08_skip", "c08_delay",
-                              "c08_rtlsdr", "c08_no_panic_hand"],
+                              "c08_rtlsdr", "c08_no_panic_hand", "c08_resampler", "c08_fir"],
         "runs": [
             {"sub": "blocks", "quick": ["--seed", "{seed}", "--set", "modelled", "--cases", 1200, "--steps", 40],
              "thorough": ["--seed", "{seed}", "--set", "modelled", "--cases", 60000, "--steps", 80]},
@@ -199,7 +202,7 @@ PROPS = {
         "runs": [
             {"sub": "blocks", "quick": ["--seed", "{seed}", "--set", "modelled", "--cases", 800, "--steps", 40, "--tag-heavy", 1],
              "thorough": ["--seed", "{seed}", "--set", "modelled", "--cases", 40000, "--steps", 80, "--tag-heavy", 1]},
-            {"sub": "blocks", "quick": ["--seed", "{seed}", "--mode", "self", "--set", "every", "--cases", 1400, "--steps", 40],
+            {"sub": "blocks", "quick": ["--seed", "{seed}", "--mode", "self", "--set", "every", "--cases", 1400, "--steps", 40, "--fit-probes", 1],
              "thorough": ["--seed", "{seed}", "--mode", "self", "--set", "every", "--cases", 70000, "--steps", 80],
              "timeout": 20000},
         ],
@@ -218,10 +221,13 @@ PROPS = {
     },
     "C10": {
         "required_theorems": ["c10_samplewise", "c10_nrzi", "c10_nrzi_xor_tee_delay", "c10_skip", "c10_delay", "c10_rtlsdr",
-                              "c10_s2pdu"],
+                              "c10_s2pdu", "c10_resampler"],
         "runs": [
             {"sub": "blocks", "quick": ["--seed", "{seed}", "--set", "modelled", "--cases", 1600, "--steps", 30],
              "thorough": ["--seed", "{seed}", "--set", "modelled", "--cases", 80000, "--steps", 60]},
+            # FFT-stream framing against the DFT of each frame (random pieces, nearly full output), and the other DSP specs
+            {"sub": "dsp", "quick": ["--seed", "{seed}", "--cases", 60],
+             "thorough": ["--seed", "{seed}", "--cases", 3000], "timeout": 20000},
         ],
         "rule": "modelled blocks (all sample-wise blocks, slicer, NRZI, descrambler, both correlators, burst tagger, skip, "
                 "delay, resampler, RTL-SDR decoder, arity blocks) x parameter grids (delay/skip 0..3000, interp/deci 1..12 incl. "
@@ -415,6 +421,8 @@ PROPS = {
         "runs": [
             {"sub": "crash", "quick": ["--seed", "{seed}", "--cases", 400, "--burst-len", 5, "--probes", 1],
              "thorough": ["--seed", "{seed}", "--cases", 20000, "--burst-len", 8, "--probes", 1], "timeout": 40000},
+            {"sub": "bytes", "quick": ["--seed", "{seed}", "--cases", 24, "--what", "tcp"],
+             "thorough": ["--seed", "{seed}", "--cases", 1000, "--what", "tcp"], "timeout": 20000},
             {"sub": "hdlc", "quick": ["--seed", "{seed}", "--cases", 400],
              "thorough": ["--seed", "{seed}", "--cases", 20000], "timeout": 20000},
         ],
